@@ -11,6 +11,8 @@
 From Coq Require Import List NArith Bool String.
 From KV.gen Require Import Blocking.
 From KV Require Import BlockView ReplSession ReplSessionProofs.
+From KV Require LockDiscipline ReplLocksFacts.
+From KV.gen Require Locks.
 Import ListNotations.
 Open Scope N_scope.
 
@@ -73,3 +75,28 @@ Theorem C15_silent_peer_dropped :
     topology (hb_rounds_async (mkHB 10 30) 11 n 0 [silent_peer; mkS 8 true true false 0 0 0]) = [8].
 Proof. exact silent_peer_dropped. Qed.
 Print Assumptions C15_silent_peer_dropped.
+
+(* the state the primary shares between a client's write path and what replicas drive (session
+   map, batcher, WAL pointer, session objects) is accessed under a common lock, writes
+   exclusively — on the lock table regenerated from pkg/replication on every run
+   (gen/Locks.v; the locations in Locks.gen_findings are genuine exceptions, reported, not
+   covered by this statement); the session map in particular under Primary.mu *)
+Theorem C15_replication_state_protected :
+  LockDiscipline.protectedb ReplLocksFacts.repl_accesses = true /\
+  forallb (LockDiscipline.guards ReplLocksFacts.primary_mu) ReplLocksFacts.sessions_rows = true.
+Proof. exact (conj ReplLocksFacts.repl_fields_protected ReplLocksFacts.repl_sessions_under_primary_mu). Qed.
+Print Assumptions C15_replication_state_protected.
+
+(* ... so every conforming trace is race free on that state (no concurrent map write) ... *)
+Theorem C15_replication_traces_race_free : forall tr,
+  LockDiscipline.wf tr -> LockDiscipline.conforms ReplLocksFacts.repl_accesses tr -> ~ LockDiscipline.race tr.
+Proof. exact ReplLocksFacts.repl_conforming_traces_race_free. Qed.
+Print Assumptions C15_replication_traces_race_free.
+
+(* ... and the lock order of the whole table, replication locks included, is acyclic with no
+   replication lock nested in itself *)
+Theorem C15_replication_lock_order :
+  LockDiscipline.acyclicb Locks.gen_order = true /\
+  existsb ReplLocksFacts.repl_self_nested Locks.gen_order = false.
+Proof. exact (conj ReplLocksFacts.repl_lock_order_acyclic ReplLocksFacts.repl_no_self_nesting). Qed.
+Print Assumptions C15_replication_lock_order.
